@@ -496,13 +496,23 @@ impl<'a> Gen<'a> {
         let opts = self.opts_at(depth + 1);
         Shape::Cmd {
             name,
+            // up to three short and two long aliases, the two lists of different lengths
             shorts: if self.r.chance(1, 3) {
-                vec![self.short()]
+                let n = *self.r.pick(&[1usize, 1, 1, 2, 3][..]);
+                let mut v: Vec<char> = Vec::new();
+                for _ in 0..n {
+                    let c = self.short();
+                    if !v.contains(&c) {
+                        v.push(c);
+                    }
+                }
+                v
             } else {
                 vec![]
             },
             longs: if self.r.chance(1, 4) {
-                vec![*self.r.pick(CMDS)]
+                let n = *self.r.pick(&[1usize, 1, 2][..]);
+                (0..n).map(|_| *self.r.pick(CMDS)).collect()
             } else {
                 vec![]
             },
